@@ -225,11 +225,13 @@ theorem callBlock_spec (s : St) (fn : Func) (slots : List Bind.Slot) (pos named 
        have := any_dflt_of_mem (by assumption) (by assumption)
        exact absurd this (by assumption))
     | exact call_taskOk hf (by schain) (by assumption) (by assumption) (args_length hslots (by assumption))
+    | exact func_env_lt hf (by schain) (by assumption)
     | (obtain ⟨hc1, hc2⟩ := argsBlock_close hI hΓf (by assumption) (by assumption)
           (Nat.le_of_eq (args_length hslots (by assumption)).symm)
        first
          | exact ⟨hc2, hc1, trivial⟩
          | exact hc2
+         | exact func_env_lt hf hc1 hc2
          | exact call_taskOk hf (by schain) (by assumption) (by assumption) (args_length hslots (by assumption))
          | exact ⟨by assumption, by schain, trivial⟩
          | exact ⟨fun _ => hc2, by assumption⟩)
